@@ -66,11 +66,13 @@ class Net:
         clat, clon = spec["centre"]
         # area 1: circle r=200 m at the centre (stations placed ≤ 60 m from it are inside, ≥ 800 m outside);
         # area 2: circle r=1.7 km (just below itsGnMaxGeoAreaSize = 10 km²; everybody inside)
-        self.areas = {1: ("circle", clat, clon, 200), 2: ("circle", clat, clon, 1700)}
+        self.areas = {1: ("circle", clat, clon, 200, 200, 0), 2: ("circle", clat, clon, 1700, 1700, 0),
+                      3: ("rect", clat, clon, 200, 100, 0), 4: ("elip", clat, clon, 200, 100, 30)}
         self.inside = {}
         for sd in spec["stations"]:
             i, lat, lon = sd["i"], sd["lat"], sd["lon"]
-            self.inside[(1, i)] = bool(sd["near"])
+            for a in (1, 3, 4):     # near stations (≤ 60 m) are inside, far ones (≥ 800 m) outside, whatever the shape
+                self.inside[(a, i)] = bool(sd["near"])
             self.inside[(2, i)] = True
             with rs.quiet():
                 s = st_mod.Station(i, clock, facilities=(), with_ldm=False, lat=lat, lon=lon,
@@ -110,11 +112,14 @@ class Net:
         if tr == "shb":
             ptt = PacketTransportType(header_type=HeaderType.TSB, header_subtype=TopoBroadcastHST.SINGLE_HOP)
         elif tr in ("gbc", "gac"):
-            _, alat, alon, r = self.areas[arg]
-            ptt = (PacketTransportType(header_type=HeaderType.GEOBROADCAST, header_subtype=GeoBroadcastHST.GEOBROADCAST_CIRCLE)
-                   if tr == "gbc" else
-                   PacketTransportType(header_type=HeaderType.GEOANYCAST, header_subtype=GeoAnycastHST.GEOANYCAST_CIRCLE))
-            kw["gn_area"] = Area(latitude=alat, longitude=alon, a=r, b=r, angle=0)
+            shape, alat, alon, ra, rb, ang = self.areas[arg]
+            hst = {"gbc": {"circle": GeoBroadcastHST.GEOBROADCAST_CIRCLE, "rect": GeoBroadcastHST.GEOBROADCAST_RECT,
+                           "elip": GeoBroadcastHST.GEOBROADCAST_ELIP},
+                   "gac": {"circle": GeoAnycastHST.GEOANYCAST_CIRCLE, "rect": GeoAnycastHST.GEOANYCAST_RECT,
+                           "elip": GeoAnycastHST.GEOANYCAST_ELIP}}[tr][shape]
+            ptt = PacketTransportType(header_type=HeaderType.GEOBROADCAST if tr == "gbc" else HeaderType.GEOANYCAST,
+                                      header_subtype=hst)
+            kw["gn_area"] = Area(latitude=alat, longitude=alon, a=ra, b=rb, angle=ang)
         else:
             ptt = PacketTransportType(header_type=HeaderType.GEOUNICAST, header_subtype=HeaderSubType.UNSPECIFIED)
             kw["gn_destination_address"] = self.st[arg].mib.itsGnLocalGnAddr
@@ -155,7 +160,7 @@ def expected_deliveries(net, i, req):
     """oracle from the property text: who must be handed what for this request"""
     exp = {k: [] for k in net.st}
     for k in net.st:
-        if k == i:
+        if k == i or k in net.ether.down:
             continue
         tr, arg = req["tr"], req["arg"]
         addressed = (tr == "shb" or (tr in ("gbc", "gac") and net.inside[(arg, k)]) or (tr == "guc" and arg == k))
@@ -188,7 +193,7 @@ def gen_request(ctx, n, allow_scf=False):
     tr = ctx.rng.choice(["shb", "gbc", "gbc", "gac", "guc", "guc", "guc"])
     arg = 0
     if tr in ("gbc", "gac"):
-        arg = ctx.rng.choice([1, 1, 2])
+        arg = ctx.rng.choice([1, 2, 3, 4])
     elif tr == "guc":
         arg = ctx.rng.choice([k for k in range(1, n + 1) if k != i])
     ln = ctx.rng.choice([0, 0, 1, 2, 3, 17, 100, 1399, 1400]) if ctx.rng.random() < 0.7 else ctx.rng.randrange(0, 1401)
@@ -209,28 +214,66 @@ def signed_coordinates_ok():
         return False
 
 
+def ls_retransmissions(net, n0):
+    """(sender, sought) of LS requests ORIGINATED (not forwarded) since ether log position n0"""
+    out = []
+    for snd, f in net.ether.log[n0:]:
+        if len(f) >= 48 and f[0] & 0x0F == 1 and f[5] == 0x60:
+            so = f[12 + 4:12 + 12]
+            if so == net.st[snd].mib.itsGnLocalGnAddr.encode():
+                sought = f[12 + 28:12 + 36]
+                de = next((k for k, s in net.st.items() if s.mib.itsGnLocalGnAddr.encode() == sought), -1)
+                out.append((snd, de))
+    return out
+
+
 def run_programme(clock, spec):
-    """spec: dict(centre, cbf, stations[{i,lat,lon,near,ports}], steps[[i, req] | ["adv", ms]]) — fully explicit"""
+    """spec: dict(centre, cbf, stations[{i,lat,lon,near,ports}], steps) — fully explicit.  steps:
+    [i, req] request at station i | ["adv", ms] | ["down", k] / ["up", k] station k leaves / re-enters radio range"""
     clock.ms = BASE_MS
     net = Net(clock, spec)
     lines = list(net.lines)
-    reals = []
+    reals = []      # per model-compared step: (i, req | None, new, exp | None, err, blocked, n_model_lines)
+    deferred = {}   # station that is down -> payloads it must receive once it is back (unicast via location service)
     try:
         for step in spec["steps"]:
+            if step[0] in ("down", "up"):
+                k = step[1]
+                (net.ether.down.add if step[0] == "down" else net.ether.down.discard)(k)
+                lines.append(f"{step[0]} {k}")
+                if step[0] == "down":
+                    deferred.setdefault(k, [])
+                continue
+            before = {k: len(v) for k, v in net.hits.items()}
             if step[0] == "adv":
+                n0 = len(net.ether.log)
                 net.vt.advance(step[1], after_each=net.ether.pump)
                 net.settle()
+                new = {k: [net.canon(ind, p) for p, ind in h[before[k]:]] for k, h in net.hits.items()}
+                retx = ls_retransmissions(net, n0)
+                for (snd, de) in retx:
+                    lines.append(f"lsretx {snd} {de}")
+                exp = {k: [] for k in net.st}
+                for k in list(deferred):
+                    if k not in net.ether.down and new.get(k):
+                        exp[k] = deferred.pop(k)     # everything queued for k must arrive, in order, exactly once
+                reals.append((0, None, new, exp, None, False, len(retx)))
                 continue
             i, req = step
             req = dict(req, payload=list(bytes.fromhex(req["payload"])))
             new, err = net.issue(i, req)
             exp = expected_deliveries(net, i, req)
+            if req["tr"] == "guc" and req["arg"] in net.ether.down and req["dport"] in net.ports[req["arg"]]:
+                deferred[req["arg"]].append((req["dport"], req["info"] if req["btpB"] else 0, 0 if req["btpB"] else req["info"],
+                                             bytes(req["payload"]).hex() or "-", i, net.pos[i] + 900000000, "guc"))
             blocked = bool(req["scf"]) and new != exp and not any(new.values())
             lines.append(model_line(i, req, blocked))
-            reals.append((i, req, new, exp, err, blocked))
+            reals.append((i, req, new, exp, err, blocked, 1))
+        # whatever is still owed to a station that came back must have been delivered by the end of the programme
+        owed = {k: v for k, v in deferred.items() if v and k not in net.ether.down}
     finally:
         net.close()
-    return net, lines, reals
+    return net, lines, reals, owed
 
 
 def gen_spec(ctx, hemisphere, nsteps, scf=False):
@@ -246,6 +289,27 @@ def gen_spec(ctx, hemisphere, nsteps, scf=False):
         ports = sorted(set(ctx.rng.sample(PORT_POOL, ctx.rng.randrange(1, len(PORT_POOL)))))
         stations.append({"i": i, "lat": lat, "lon": lon, "near": near, "ports": ports})
     steps, total_adv = [], 0
+    if n >= 2 and not scf and ctx.rng.random() < 0.5:
+        # a station that nobody has heard yet is out of range for a while: unicast requests to it (from ONE source)
+        # wait in the location-service buffer, other traffic goes on; when it is back the lookup succeeds on the
+        # next retransmission and the buffered requests must arrive in order
+        d = ctx.rng.randrange(1, n + 1)
+        src = ctx.rng.choice([k for k in range(1, n + 1) if k != d])
+        steps.append(["down", d])
+        for _ in range(ctx.rng.randrange(2, 7)):
+            r = gen_request(ctx, n)
+            if r[0] == d:
+                r[0] = src
+            if r[1]["tr"] == "guc" and (r[1]["arg"] == d or r[1]["arg"] == r[0]):
+                r[0], r[1]["arg"] = src, d
+            if ctx.rng.random() < 0.4:
+                r[0], r[1]["tr"], r[1]["arg"] = src, "guc", d
+            steps.append(r)
+            if ctx.rng.random() < 0.3 and total_adv < 3000:
+                steps.append(["adv", 1000])
+                total_adv += 1000
+        steps += [["up", d], ["adv", 1000], ["adv", 1000]]
+        total_adv += 2000
     for _ in range(nsteps):
         if ctx.rng.random() < 0.2 and total_adv < 12000:
             ms = ctx.rng.choice([1000, 1000, 2000])
@@ -256,35 +320,54 @@ def gen_spec(ctx, hemisphere, nsteps, scf=False):
     return {"centre": [clat, clon], "cbf": ctx.rng.random() < 0.4, "stations": stations, "steps": steps}
 
 
-def judge(ctx, spec, reals, model_out, rng_state):
-    for idx, (i, req, new, exp, err, blocked) in enumerate(reals):
+def judge(ctx, spec, reals, model_out, owed):
+    pos = 0
+    for idx, (i, req, new, exp, err, blocked, nlines) in enumerate(reals):
         ctx.evals()
-        case = {"kind": "programme", "spec": dict(spec, steps=spec["steps"][:steps_upto(spec, idx)]), "upto": idx}
-        ctx.cover("req_" + req["tr"])
-        ctx.cover("payload_len_%s" % ("0" if not req["payload"] else "1-3" if len(req["payload"]) <= 3 else
-                                      ">=1399" if len(req["payload"]) >= 1399 else "mid"))
-        if err:
-            ctx.violation(f"request at station {i} raised {err}", case)
-            continue
-        if new != exp:
-            fid = "C01-KF1" if (req["scf"] and blocked) else None
-            got = {k: len(v) for k, v in new.items()}
-            want = {k: len(v) for k, v in exp.items()}
-            ctx.violation(f"{req['tr']} from station {i}: handler invocations {got} differ from prescribed {want}"
-                          f"{' (SCF set, nothing sent)' if fid else ''}", case, fid)
-        if any(exp.values()):
-            ctx.nontrivial(("req", req["tr"], req["btpB"], len(req["payload"]), req["dport"], len(spec["stations"]), spec["cbf"], idx))
-        if model_out is not None:
-            mo = parse_model(model_out[idx], Obj(new))
+        case = {"kind": "programme", "spec": spec, "upto": idx}
+        mo_lines = model_out[pos:pos + nlines] if model_out is not None else None
+        pos += nlines
+        if req is None:       # clock advance (location-service retransmissions may fire)
+            ctx.cover("adv_steps")
+            if any(exp.values()):
+                ctx.cover("deferred_flushes")
+                ctx.nontrivial(("flush", idx, tuple(len(v) for v in exp.values())))
+            if any(new.get(k, []) != v for k, v in exp.items() if v) or any(new[k] and not exp[k] for k in new):
+                ctx.violation("deliveries after a location-service retransmission differ from the requests buffered for the "
+                              f"destination: got { {k: len(v) for k, v in new.items()} } want { {k: len(v) for k, v in exp.items()} }", case)
+        else:
+            ctx.cover("req_" + req["tr"])
+            ctx.cover("payload_len_%s" % ("0" if not req["payload"] else "1-3" if len(req["payload"]) <= 3 else
+                                          ">=1399" if len(req["payload"]) >= 1399 else "mid"))
+            if err:
+                ctx.violation(f"request at station {i} raised {err}", case)
+                continue
+            if new != exp:
+                fid = "C01-KF1" if (req["scf"] and blocked) else None
+                got = {k: len(v) for k, v in new.items()}
+                want = {k: len(v) for k, v in exp.items()}
+                ctx.violation(f"{req['tr']} from station {i}: handler invocations {got} differ from prescribed {want}"
+                              f"{' (SCF set, nothing sent)' if fid else ''}", case, fid)
+            if any(exp.values()):
+                ctx.nontrivial(("req", req["tr"], req["arg"], req["btpB"], len(req["payload"]), req["dport"],
+                                len(spec["stations"]), spec["cbf"], idx))
+        if mo_lines is not None:
+            mo = {k: [] for k in new}
+            for ln in mo_lines:
+                for k, v in parse_model(ln, Obj(new)).items():
+                    mo[k] += v
             if mo != new:
-                ctx.mismatch("net.deliveries", case, {str(k): v for k, v in new.items()}, model_out[idx])
+                ctx.mismatch("net.deliveries", case, {str(k): v for k, v in new.items()}, mo_lines)
+    if owed:
+        ctx.violation(f"unicast requests buffered during a location-service lookup were never delivered: "
+                      f"{ {k: len(v) for k, v in owed.items()} }", {"kind": "programme", "spec": spec, "upto": len(reals)})
 
 
 def steps_upto(spec, idx):
     """number of programme steps up to and including request number idx"""
     k = -1
     for n, st in enumerate(spec["steps"]):
-        if st[0] != "adv":
+        if st[0] not in ("down", "up"):
             k += 1
             if k == idx:
                 return n + 1
@@ -298,13 +381,12 @@ class Obj:
 
 def one_run(ctx, clock, hemi, nsteps, scf=False):
     spec = gen_spec(ctx, hemi, nsteps, scf)
-    net, lines, reals = run_programme(clock, spec)
-    nreq = len(reals)
+    net, lines, reals, owed = run_programme(clock, spec)
     model_out = None
     if ctx.model_ok:
         out = ctx.model("Net", ["reset"] + lines)
-        model_out = out[len(out) - nreq:] if nreq else []
-    judge(ctx, spec, reals, model_out, None)
+        model_out = [o for l, o in zip(["reset"] + lines, out) if l.startswith(("req ", "lsretx "))]
+    judge(ctx, spec, reals, model_out, owed)
     ctx.cover("programmes")
     ctx.cover(f"stations_{len(spec['stations'])}")
     ctx.cover("cbf" if spec["cbf"] else "simple")
@@ -331,7 +413,7 @@ def run(ctx):
             if first is None and reals:
                 first = {"stations": spec["stations"], "cbf": spec["cbf"], "centre": spec["centre"],
                          "first_steps": [[s[0], {kk: (vv if kk != "payload" else f"{len(vv) // 2} octets") for kk, vv in s[1].items()}]
-                                         if s[0] != "adv" else list(s) for s in spec["steps"][:4]]}
+                                         if isinstance(s[1], dict) else list(s) for s in spec["steps"][:6]]}
         if first:
             ctx.sample("programme", first)
         # store-carry-forward stream (known finding C01-KF1), judged by the oracle; model run with the `blocked` bit
@@ -358,11 +440,17 @@ def replay(ctx, obj):
         return not signed_coordinates_ok()
     spec = case["spec"]
     with rs.VClock(BASE_MS) as clock:
-        net, lines, reals = run_programme(clock, spec)
-    bad = False
-    for i, req, new, exp, err, blocked in reals:
-        if err or (new != exp and not (req["scf"] and blocked)):
+        net, lines, reals, owed = run_programme(clock, spec)
+    bad = bool(owed)
+    for i, req, new, exp, err, blocked, _ in reals:
+        if req is None:
+            if any(new.get(k, []) != v for k, v in exp.items() if v) or any(new[k] and not exp[k] for k in new):
+                print("adv: got", {k: len(v) for k, v in new.items()}, "want", {k: len(v) for k, v in exp.items()})
+                bad = True
+        elif err or (new != exp and not (req["scf"] and blocked)):
             print("station", i, req["tr"], "got", {k: len(v) for k, v in new.items()}, "want",
                   {k: len(v) for k, v in exp.items()}, err)
             bad = True
+    if owed:
+        print("never delivered:", {k: len(v) for k, v in owed.items()})
     return bad
